@@ -28,6 +28,37 @@ def find_dispatcher_try(it):
     raise Unsupported("Server.dispatcher not found")
 
 
+def dispatcher_locals(fn):
+    """logical -> actual names of the locals of Server.dispatcher that the three block contracts bind or read, recognised
+    by what they are assigned from (renaming them in the source is harmless)"""
+    L = {}
+    for n in ast.walk(fn):
+        if isinstance(n, ast.Assign):
+            src = ast.unparse(n.value)
+            t0 = n.targets[0]
+            if isinstance(t0, ast.Tuple) and "peername" in src and len(t0.elts) >= 2 and all(isinstance(e, ast.Name) for e in t0.elts[:2]):
+                L.setdefault("host", t0.elts[0].id)
+                L.setdefault("port", t0.elts[1].id)
+            elif len(n.targets) == 2 and all(isinstance(t, ast.Name) for t in n.targets) and isinstance(n.value, ast.Call) and ast.unparse(n.value.func) == "ThrottleStreamIO":
+                L.setdefault("key", n.targets[0].id)
+                L.setdefault("stream", n.targets[1].id)
+            elif isinstance(t0, ast.Name) and src == "asyncio.Queue()":
+                L.setdefault("response_queue", t0.id)
+            elif isinstance(t0, ast.Name) and isinstance(n.value, ast.Call) and ast.unparse(n.value.func) == "Connection":
+                L.setdefault("connection", t0.id)
+            elif isinstance(t0, ast.Name) and isinstance(n.value, ast.Set):
+                L.setdefault("pending", t0.id)
+            elif isinstance(t0, ast.Tuple) and "asyncio.wait(" in src and len(t0.elts) == 2 and all(isinstance(e, ast.Name) for e in t0.elts):
+                L.setdefault("done", t0.elts[0].id)
+    for n in ast.walk(fn):
+        if isinstance(n, ast.For) and isinstance(n.iter, ast.Name) and n.iter.id == L.get("done") and isinstance(n.target, ast.Name):
+            L.setdefault("task", n.target.id)
+    missing = [k for k in ("host", "port", "key", "stream", "response_queue", "connection", "pending", "done", "task") if k not in L]
+    if missing:
+        raise Unsupported(f"Server.dispatcher: locals not recognised: {missing}")
+    return L
+
+
 def setup_finally(u):
     it = u.it
     sess = Session(u, mode="PIPE", limits=True, ports=None)
@@ -41,15 +72,10 @@ def setup_finally(u):
     pending = {TaskModel(None, tag="parse_command"), TaskModel(None, tag="response_writer"), TaskModel(None, tag="some-handler")}
     stream = conn.slots["command_connection"].fut.value
     env = Env(it.modules[SERVER].env)
-    env.vars.update(
-        self=sess.server,
-        connection=conn,
-        pending=pending,
-        stream=stream,
-        key=stream,
-        host=fresh("str", "host"),
-        port=fresh("int", "peer_port"),
-    )
+    L = dispatcher_locals(fn)
+    env.vars["self"] = sess.server
+    for logical, value in (("connection", conn), ("pending", pending), ("stream", stream), ("key", stream), ("host", fresh("str", "host")), ("port", fresh("int", "peer_port"))):
+        env.vars[L[logical]] = value
     # the session is registered under its own key (set-up prefix of dispatcher)
     sess.server.fields["connections"].member[id(stream)] = True
     # nothing is in flight when the try is left: guaranteed on every exit by _start_passive_server's contract
@@ -219,7 +245,8 @@ def prefix_exit(S, outcome):
         return
     env, srv = S.vars["env"], S.vars["self"]
     v = env.vars
-    stream, conn = v.get("stream"), v.get("connection")
+    L = dispatcher_locals(find_dispatcher_try(it)[0])
+    stream, conn = v.get(L["stream"]), v.get(L["connection"])
     T16, T17, T15 = {"props": ["C16"]}, {"props": ["C17"]}, {"props": ["C15", "C17"]}
 
     def same(a, b):
@@ -278,7 +305,7 @@ def prefix_exit(S, outcome):
     names = sorted(getattr(t.coro, "name", "?") for t in S.vars["spawned"])
     ctx.check(f"{name}/exit:starts-greeting-writer-and-reader", z3.BoolVal(names == ["Server.greeting", "Server.parse_command", "Server.response_writer"]), info={"props": ["C17", "C05"], "names": names})
     # the response callable feeds this session's own queue
-    q = v.get("response_queue")
+    q = v.get(L["response_queue"])
     resp = conn.slots["response"].fut.value
     it.call(resp, ["000", "probe"], {})
     ctx.check(f"{name}/exit:replies-go-to-the-session's-own-queue", z3.BoolVal(len(q.items) == 1 and q.items[0] == ("000", "probe")), info=T17)
@@ -294,9 +321,10 @@ from pyvc.models_aio import QueueModel  # noqa: E402
 
 def find_for_body(it):
     fn, tr = find_dispatcher_try(it)
-    fors = [n for st in tr.body for n in ast.walk(st) if isinstance(n, ast.For) and isinstance(n.target, ast.Name) and n.target.id == "task"]
+    L = dispatcher_locals(fn)
+    fors = [n for st in tr.body for n in ast.walk(st) if isinstance(n, ast.For) and isinstance(n.target, ast.Name) and n.target.id == L["task"] and isinstance(n.iter, ast.Name) and n.iter.id == L["done"]]
     if len(fors) != 1:
-        raise Unsupported("Server.dispatcher: expected exactly one `for task in ...` loop inside the try")
+        raise Unsupported("Server.dispatcher: expected exactly one `for <task> in <done>` loop inside the try")
     return fors[0].body
 
 
@@ -350,7 +378,10 @@ def setup_for_body(u):
     stream = conn.slots["command_connection"].fut.value
     pending = {TaskModel(None, tag="response_writer")}
     env = Env(it.modules[SERVER].env)
-    env.vars.update(self=srv, connection=conn, pending=pending, response_queue=queue, stream=stream, task=task)
+    L = dispatcher_locals(find_dispatcher_try(it)[0])
+    env.vars["self"] = srv
+    for logical, value in (("connection", conn), ("pending", pending), ("response_queue", queue), ("stream", stream), ("task", task)):
+        env.vars[L[logical]] = value
     spawned = []
     it.hooks["on_spawn"] = lambda i, t: spawned.append(t)
     offset0 = conn.slots["restart_offset"].fut.value
